@@ -1,7 +1,7 @@
 """C06 version changes invalidate exactly the function and its transitive callers."""
 import random
 
-from .common import signature, detail, case_of, account_build
+from .common import signature, detail, case_of, account_build, nested_cache_rel
 from ..env import Scratch
 from ..world import World
 from ..gen import GenCfg, gen_program, program_shape
@@ -86,7 +86,7 @@ def run_shard(sh):
         shape = program_shape(program)
         names = sorted(program['funcs'])
         with Scratch('v') as sc:
-            w = World(sc, 'k/kk/cache.gz' if rng.random() < 0.15 else 'cache.gz')
+            w = World(sc, nested_cache_rel(rng, program) if rng.random() < 0.15 else 'cache.gz')
             counter = [0]
             for _ in range(rng.randint(0, 3)):
                 random_mutation(rng, w, cfg, counter=counter)
